@@ -20,11 +20,11 @@ func init() {
 	}, c11)
 	reg("C12", Meta{
 		Technique:   "who-may-write over the call graph reachable from the garbage collector (no pin-index write), must-guard reachability (GC deletes data only behind 'no pin entry'), reachability disjointness for the upload path",
-		Explanation: "C12 (GC never deletes pinned or uploaded chunks), structural clauses: (W1) nothing reachable from DB.collectGarbage (its closures and same-package callees) calls a write method on DB.pinIndex — 'no run changes any pin count'; (G1) every data-index delete reachable from collectGarbage is behind the edge where the pin index has no entry for that chunk; (W2) nothing reachable from putUpload writes the gc index or calls setGC — uploaded chunks never become collectable. Not decided: pin counter values.",
+		Explanation: "C12 (GC never deletes pinned or uploaded chunks), structural clauses: (W1) nothing reachable from DB.collectGarbage (its closures and same-package callees) calls a write method on DB.pinIndex — 'no run changes any pin count'; (G1) every data-index delete reachable from collectGarbage is behind the edge where the pin index has no entry for that chunk; (W2) nothing reachable from putUpload writes the gc index or calls setGC — uploaded chunks never become collectable; (G2) atomic re-check: every index mutation in collectGarbage's deleting closures is behind the not-a-member edge of a MemberOf test on the live DB.dirtyAddresses, loaded inside that closure after it took DB.batchMu and without an explicit Unlock in between (a file pinned after the candidates were gathered is skipped). Not decided: pin counter values.",
 	}, c12)
 	reg("C13", Meta{
 		Technique:   "batch read-modify-write rule over SSA + call graph (a Get→modify→PutInBatch on one index key that is invariant across a loop of the same batched operation is a lost update), who-may-write for the persisted counter",
-		Explanation: "C13 (cache accounting), structural clauses: (B1) inside one batched operation no index entry is read-modified-written through the batch more than once — reads do not see the uncommitted batch, so N updates of the same key write the same value while the cached-chunk counter is still changed N times: the rule finds helpers that Get and PutInBatch the same index keyed by a parameter and are called from a loop with a loop-invariant key; (W1) the persisted counter gcSize is written only by incGCSizeInBatch, collectGarbage and the constructor. Not decided: the numeric identity counter = Σ per-file counts, and counter <= capacity after quiescence.",
+		Explanation: "C13 (cache accounting), structural clauses: (B1) inside one batched operation no index entry is read-modified-written through the batch more than once — reads do not see the uncommitted batch, so N updates of the same key write the same value while the cached-chunk counter is still changed N times: the rule finds helpers that Get and PutInBatch the same index keyed by a parameter and are called from a loop with a loop-invariant key; (W1) the persisted counter gcSize is written only by incGCSizeInBatch, collectGarbage and the constructor; (G2) the collector's check-then-delete of a candidate against the live dirty-address list is one critical section inside the deleting closure (same rule as C12.G2: a re-keyed gc entry is not deleted under its stale key). Not decided: the numeric identity counter = Σ per-file counts, and counter <= capacity after quiescence.",
 	}, c13)
 	reg("C14", Meta{
 		Technique:   "batch-discipline rule over SSA + call graph: no direct (unbatched) index/field write inside a batched operation, one commit per operation, every staged write on the operation's own batch",
@@ -376,6 +376,7 @@ func c12(r *core.Run) {
 			"garbage collection deletes chunk data only when the chunk has no pin entry", "a data delete in garbage collection is reachable for a chunk that has a pin entry (or without consulting the pin index)")
 	}
 	r.Floor("C12.G1", "data deletes reachable from collectGarbage", nd, 2)
+	gcDirtyRecheck(r, "C12.G2", "a file pinned or re-used after the candidates were gathered is still collected — its pin entries and chunk data are deleted")
 
 	// W2 uploads never become collectable
 	ur := lsReach(w, pu)
@@ -398,6 +399,85 @@ func c12(r *core.Run) {
 	}
 	r.Check("C12.W2", core.Key("C12.W2", pu, "upload path never touches the gc index"), badPos, okU,
 		"locally uploaded chunks are never entered into the gc index", "a function reachable from putUpload writes the gc index / calls setGC")
+}
+
+// gcDirtyRecheck: garbage collection gathers its candidates without the lock and deletes
+// them later; Put/Set/Get log every address they touch in DB.dirtyAddresses meanwhile. The
+// rule requires the check-then-act to be atomic: in every closure of collectGarbage that
+// mutates an index, each mutation is only behind the "not a member" edge of a MemberOf test
+// on the *live* list — a load of DB.dirtyAddresses made inside that closure, after the
+// closure took DB.batchMu, with no explicit Unlock in the closure (deferred only).
+func gcDirtyRecheck(r *core.Run, rule, consequence string) {
+	gc := lsFunc(r, "(*DB).collectGarbage")
+	if gc == nil {
+		return
+	}
+	var cls []*ssa.Function
+	var collect func(f *ssa.Function)
+	collect = func(f *ssa.Function) {
+		for _, a := range f.AnonFuncs {
+			cls = append(cls, a)
+			collect(a)
+		}
+	}
+	collect(gc)
+	isBatchMu := func(c *ssa.CallCommon) bool {
+		return len(c.Args) > 0 && core.IsFieldOf(c.Args[0], dbT, "batchMu")
+	}
+	n := 0
+	for _, cl := range cls {
+		var writes []idxCall
+		for _, ic := range lsIndexCalls([]*ssa.Function{cl}) {
+			if idxWriteMethods[ic.method] {
+				writes = append(writes, ic)
+			}
+		}
+		if len(writes) == 0 {
+			continue
+		}
+		r.Saw(core.FuncName(cl))
+		r.Eval(core.EdgeCount(cl))
+		var liveTests []ssa.Instruction
+		_, notDirty := core.AtomEdges(cl, core.BoolCallAtom(func(c *ssa.Call) bool {
+			if !core.IsCallTo(c, "(pkg/boson.Address).MemberOf") || len(c.Call.Args) < 2 {
+				return false
+			}
+			if !core.IsFieldOf(core.Forward(c.Call.Args[1]), dbT, "dirtyAddresses") {
+				return false
+			}
+			liveTests = append(liveTests, c)
+			return true
+		}))
+		locked := false
+		explicitUnlock := false
+		core.EachInstr(cl, func(_ *ssa.BasicBlock, _ int, in ssa.Instruction) {
+			c, ok := in.(*ssa.Call)
+			if !ok {
+				return
+			}
+			if core.IsCallTo(c, "(*sync.Mutex).Lock") && isBatchMu(&c.Call) {
+				for _, t := range liveTests {
+					if core.Precedes(c, t) {
+						locked = true
+					}
+				}
+			}
+			if core.IsCallTo(c, "(*sync.Mutex).Unlock") && isBatchMu(&c.Call) {
+				explicitUnlock = true
+			}
+		})
+		for _, ic := range writes {
+			n++
+			ok := len(notDirty) > 0 && core.OnlyBehind(cl, ic.in, notDirty) && locked && !explicitUnlock
+			why := "the index mutation is reachable without a MemberOf test of the live DB.dirtyAddresses inside the deleting closure"
+			if len(notDirty) > 0 && core.OnlyBehind(cl, ic.in, notDirty) {
+				why = "the dirty test and the mutation are not in one DB.batchMu critical section of the closure"
+			}
+			r.Check(rule, lsKey(rule, cl, ic.field+"."+ic.method+" behind live dirty-address test"), ic.in.Pos(), ok,
+				"GC mutates the indexes for a candidate only after re-testing it, under the lock and in the same critical section, against the live list of addresses touched since the candidates were gathered", why+": "+consequence)
+		}
+	}
+	r.Floor(rule, "index mutations in the deleting closures of collectGarbage", n, 2)
 }
 
 // rmwSummary: function fn reads index X with a key derived from parameter p and stages a
@@ -607,6 +687,7 @@ func c13(r *core.Run) {
 		}
 	}
 	r.Floor("C13.W1", "writes of gcSize", n, 3)
+	gcDirtyRecheck(r, "C13.G2", "a candidate whose gc-index entry was re-keyed by a concurrent access is deleted under its stale key while its chunks are subtracted — the persisted counter drifts from the sum of the per-file counts")
 }
 
 func c14(r *core.Run) {
